@@ -297,6 +297,9 @@ def parse_type(s):
         s = s.strip()
         if s.endswith('*const') or s.endswith('* const'):
             s = s[:s.rfind('*') + 1]
+        if s.endswith('__restrict'):
+            s = s[:-len('__restrict')]
+            continue
         if s.endswith(' const') or s.endswith(' volatile') or s.endswith(' __restrict'):
             s = s[:s.rfind(' ')]
             continue
